@@ -38,6 +38,28 @@ def drive_dag(recipe):
                     desc = f'operator {j} iterated before its parent {p}: {order}'
     if desc:
         hits.append(dict(desc=desc, signature='dag-iteration', recipe=recipe, gen=recipe.get('gen')))
+    if not desc and len(dag) >= 2:
+        # walks that overlap: a walk started inside another one, two walks side by side, a walk whose body asks for
+        # operator states (which builds the runtime status, itself a walk). Every walk is its own complete iteration
+        vals = w.pipes[0].values
+        outer, inners = [], []
+        for o in vals:
+            outer.append(w.gid[o])
+            inners.append([w.gid[x] for x in vals])
+        left, right = zip(*[(w.gid[a], w.gid[b]) for a, b in zip(vals, vals)]) if len(dag) else ((), ())
+        w2 = World([(3, dag)])
+        lazy = []
+        for o in w2.pipes[0].values:
+            o.state()
+            lazy.append(w2.gid[o])
+        for name, got in [('a walk with another walk started in its body', outer), ('a walk started inside another', inners[0]),
+                          ('the left of two side-by-side walks', list(left)), ('the right of two side-by-side walks', list(right)),
+                          ('a walk whose body reads operator states', lazy)]:
+            if got != order:
+                desc = f'{name} visited {got}, a plain walk visits {order}'
+                break
+    if desc and not hits:
+        hits.append(dict(desc=desc, signature='dag-iteration', recipe=recipe, gen=recipe.get('gen')))
     return dict(kind=KIND_DAG, inp=enc_dag(dag), obs=enc_list(order), recipe=recipe, gen=recipe.get('gen')), hits
 
 
